@@ -76,6 +76,44 @@ var Schemas = map[string]string{
 }`,
 }
 
+func init() {
+	Schemas["types"] = TypesSchema
+}
+
+// TypesSchema: every built-in leaf type, leaf-lists, a keyed list.
+const TypesSchema = `module types { namespace "urn:types"; prefix t; revision 0;
+  identity base-id;
+  identity id-a { base base-id; }
+  identity id-b { base id-a; }
+  container v {
+    leaf s { type string; }
+    leaf i8 { type int8; }
+    leaf i16 { type int16; }
+    leaf i32 { type int32; }
+    leaf i64 { type int64; }
+    leaf u8 { type uint8; }
+    leaf u16 { type uint16; }
+    leaf u32 { type uint32; }
+    leaf u64 { type uint64; }
+    leaf d2 { type decimal64 { fraction-digits 2; } }
+    leaf b { type boolean; }
+    leaf e { type enumeration { enum zero; enum one; enum five { value 5; } } }
+    leaf bits { type bits { bit x; bit y; bit z; } }
+    leaf idr { type identityref { base base-id; } }
+    leaf emp { type empty; }
+    leaf bin { type binary; }
+    leaf un { type union { type int32; type string; } }
+    leaf-list ls { type string; }
+    leaf-list li { type int32; }
+    leaf-list le { type enumeration { enum zero; enum one; enum five { value 5; } } }
+    leaf-list lb { type boolean; }
+    leaf-list ld { type decimal64 { fraction-digits 2; } }
+    leaf-list lu { type uint64; }
+  }
+  list ent { key k; leaf k { type string; } leaf x { type int32; } container sub { leaf y { type string; } } }
+  leaf last { type string; }
+}`
+
 var (
 	schemaMu    sync.Mutex
 	schemaCache = map[string]*meta.Module{}
@@ -153,6 +191,33 @@ func ParseScalar(t *meta.Type, s string) val.Value {
 				return e
 			}
 		}
+	case val.FmtIdentityRef:
+		return val.IdentRef{Label: s}
+	case val.FmtBinary:
+		return val.Binary(s)
+	case val.FmtBits:
+		b := val.Bits{}
+		for _, lbl := range strings.Fields(s) {
+			for _, bd := range t.Bits() {
+				if bd.Ident() == lbl {
+					b.Labels = append(b.Labels, lbl)
+					b.Positions |= 1 << bd.Position
+				}
+			}
+		}
+		return b
+	case val.FmtUnion:
+		for _, mt := range t.Union() {
+			if mt.Format() == val.FmtString {
+				continue
+			}
+			if _, err := strconv.ParseFloat(s, 64); err == nil {
+				if v := ParseScalar(mt, s); v != nil {
+					return v
+				}
+			}
+		}
+		return val.String(s)
 	}
 	return nil
 }
